@@ -50,6 +50,9 @@ pub fn install_panic_hook() {
         } else {
             "<non-string panic>".into()
         };
+        if std::env::var("MP4MC_PANIC_VERBOSE").is_ok() {
+            eprintln!("panic: {} @ {}", msg, loc);
+        }
         LAST_PANIC.with(|p| *p.borrow_mut() = Some(format!("{} @ {}", msg, loc)));
     }));
 }
